@@ -87,13 +87,17 @@ func main() {
 		"adversarial keys over {00,01,7f,80,ff,a,b} of length 0-6 related to live keys (extensions, prefixes, siblings). For every consecutive pair (r,r'): GetWriteLog must be served; applied to the reference map of r it must give the map of r' " +
 		"and applied to mkvs.NewWithRoot(r) the committed hash must be r'; a follower LocalBackend (same backend, every third history the other one) gets every corrupted log " +
 		"(dropped/duplicated/altered value/altered key/value<->nil per sampled entry, reordered, extra entry, truncated; neutrality decided with the reference map) and must refuse the non-neutral ones without making r' " +
-		"(or any other new root of that version) visible, then the honest log must persist r'; after Finalize the follower reads back as the reference map. Minimal witnesses of the known findings are replayed first. " +
+		"(or any other new root of that version) visible, then the honest log must persist r'; after Finalize the follower reads back as the reference map. " +
+		"COMPETING CANDIDATES: in about half of the versions (a quarter on badger) one or two further non-finalized state roots are committed from the same finalized parent by fresh trees, before or after the main candidate, and IO versions get one to three IO candidates; " +
+		"BEFORE Finalize GetWriteLog(parent, candidate) of every candidate must either fail (counted by error class) or serve a log that applied to the reference map / a tree at the parent gives exactly that candidate; a PRNG-chosen candidate is finalized and checked as above; " +
+		"AFTER Finalize the discarded candidates' logs must be refused or still lead exactly to the discarded root. Minimal witnesses of the known findings are replayed first. " +
 		"A pair is NON-TRIVIAL when its batch contains at least one removal and at least one no-op rewrite or remove-then-reinsert; distinct key = hash of (backend, follower, root type, reopened, operation list)."
 	r.Assume("the reference map and the harness are correct; neutrality of a corrupted log is decided by applying it to the reference map of r and comparing with the map of r'")
 	r.Assume("Apply is documented to bypass the log when the expected root already exists; corrupted logs are therefore applied before the honest one, at most one neutral corruption per pair, and pairs whose r' is the empty root are not corrupted")
 	r.Assume("an Apply of a non-neutral corrupted log that fails with an error other than ErrExpectedRootMismatch is counted (corrupt_apply_error/...), not reported: the property only demands failure and invisibility of the result")
 	r.Assume("a pair with identical hashes whose Commit returned an empty log has no stored write log in either backend (ErrWriteLogNotFound, counted under observed/...); the storage worker never requests such a diff (worker.go fetchDiff), so this is not reported")
 	r.Assume("the order of a served write log is the iteration order of a Go map in Commit; the follower is fed the log sorted by key so that the case list is a function of the seed; the served order itself is exercised when the log is applied to a tree at r")
+	r.Assume("on the hashed badger backend all candidates of a version with competing candidates use batches that only create nodes that never existed (fresh 8-byte values, no removals) and the main state candidate is the finalized one: the open C06 findings badger/finalize/discarded-sibling-recreated-preexisting-node and badger/prune|finalize node sharing between roots would otherwise make the finalized root unreadable; pathbadger candidates are unrestricted")
 	r.Assume("the leader's state trees use mkvs.Capacity(0,0) (no eviction) because of the cache accounting finding mkvs/cache-valuesize-underflow/*; the real Apply path and the tree of step 2 use the default capacity, and a failure there is attributed to that finding only when the same operation succeeds on a non-evicting tree")
 
 	rn := &runner{r: r, versions: 10, maxOps: 10, perKind: r.Pick(3, 4), stats: stats{}}
@@ -159,7 +163,12 @@ type pairWitness struct {
 	CommitLog  writelog.WriteLog `json:"log_returned_by_commit"`
 	ServedLog  writelog.WriteLog `json:"log_served_by_getwritelog,omitempty"`
 	Corruption *corruptedLog     `json:"corruption,omitempty"`
-	Replay     string            `json:"replay_hint"`
+	// Phase is set for the checks on competing candidate roots: "pending-candidate" (asked before
+	// Finalize) or "discarded-candidate" (asked after another candidate was finalized).
+	Phase       string   `json:"phase,omitempty"`
+	CommitOrder int      `json:"commit_order_among_candidates,omitempty"`
+	Competitors []string `json:"candidate_roots_of_this_version_in_commit_order,omitempty"`
+	Replay      string   `json:"replay_hint"`
 }
 
 // pairFacts are the recorded facts the classifier uses.
@@ -524,7 +533,25 @@ func (rn *runner) runHistory(h int) {
 				}
 			}
 		}
-		ops := genBatch(rng, cur, maxOps)
+		// Competing candidate roots: in about half of the versions (a quarter on badger) one or two
+		// further state roots are derived from the same finalized parent by fresh trees (as other
+		// proposers would) and committed without being finalized, before or after the main
+		// candidate. A separate PRNG stream drives them.
+		candRng := r.Rand(13, uint64(h), uint64(v), 11)
+		nExtra := 0
+		if candRng.IntN(2) == 0 && (backend != "badger" || candRng.IntN(2) == 0) {
+			nExtra = 1 + candRng.IntN(2)
+		}
+		extrasFirst := candRng.IntN(2) == 0
+		var ops []op
+		if backend == "badger" && nExtra > 0 {
+			// The hashed backend's Finalize loses nodes of the finalized root when sibling candidates
+			// and re-created nodes meet (open C06 findings badger/finalize/...): all state candidates
+			// of such a version, the main one included, only create nodes that never existed.
+			ops = genFreshBatch(rng, cur, maxOps)
+		} else {
+			ops = genBatch(rng, cur, maxOps)
+		}
 		next := applyOps(cur, ops)
 
 		type pair struct {
@@ -533,10 +560,66 @@ func (rn *runner) runHistory(h int) {
 			ops           []op
 			commitLog     writelog.WriteLog
 			facts         pairFacts
+			order         int // commit order among the candidates of its type in this version (1-based)
 		}
 		var pairs []pair
 
-		// State batch.
+		var stateCands []pair
+		order := 0
+		commitExtras := func(rootType node.RootType, start node.Root, before model, n int, cands *[]pair, fresh bool) bool {
+			for e := 0; e < n; e++ {
+				var eops []op
+				if fresh {
+					// See genFreshBatch: open C06 findings of the hashed backend's Finalize.
+					eops = genFreshBatch(candRng, before, maxOps)
+				} else {
+					eops = genBatch(candRng, before, maxOps)
+				}
+				eafter := applyOps(before, eops)
+				var et mkvs.Tree
+				if rootType == node.RootTypeState {
+					et = mkvs.NewWithRoot(nil, leader, start, mkvs.Capacity(0, 0))
+				} else {
+					et = mkvs.New(nil, leader, rootType)
+				}
+				cursor = base
+				cursor.RootType, cursor.Version, cursor.Ops, cursor.Before, cursor.Phase = rootType.String(), v, eops, before.sorted(), "competing-candidate-commit"
+				where = "tree-batch-and-commit/" + backend
+				if err := applyToTree(ctx, et, eops); err != nil {
+					et.Close()
+					fail("c13/"+backend+"/harness/tree-op-failed", err.Error(), base)
+					return false
+				}
+				elog, ehash, err := et.Commit(ctx, testNs, v)
+				et.Close()
+				if err != nil {
+					w := base
+					w.Version, w.Ops, w.Before, w.RootType, w.Phase = v, eops, before.sorted(), rootType.String(), "competing-candidate-commit"
+					fail("c13/"+backend+"/commit-failed/competing-candidate/"+errClass(err), fmt.Sprintf("Commit of a competing candidate root of version %d failed: %v", v, err), w)
+					return false
+				}
+				st.add("competing_candidates_committed/"+backend+"/"+rootType.String(), 1)
+				order++
+				eend := node.Root{Namespace: testNs, Version: v, Type: rootType, Hash: ehash}
+				ef := pairFacts{Reopened: rootType == node.RootTypeState && !start.Hash.IsEmpty(), SessionStart: start.Version, SameHash: ehash.Equal(&start.Hash), EmptyCommitLog: len(elog) == 0}
+				for _, k := range noopOnlyKeys(before, eops) {
+					if len(before) == 1 {
+						ef.SingleLeafRoot = true
+					}
+					ef.NoopKeys = append(ef.NoopKeys, hex.EncodeToString([]byte(k)))
+					if ef.Reopened && before.embedded(k) && eafter.embedded(k) {
+						ef.NoopOfLoadedEmbeddedLeaf = append(ef.NoopOfLoadedEmbeddedLeaf, hex.EncodeToString([]byte(k)))
+					}
+				}
+				*cands = append(*cands, pair{start, eend, before, eafter, eops, elog, ef, order})
+			}
+			return true
+		}
+		if extrasFirst && !commitExtras(node.RootTypeState, prev, cur, nExtra, &stateCands, backend == "badger") {
+			return
+		}
+
+		// State batch (main candidate).
 		cursor = base
 		cursor.RootType, cursor.Version, cursor.Ops, cursor.Before = "state-root", v, ops, cur.sorted()
 		cursor.StartRoot = fmt.Sprintf("%d:%s", prev.Version, prev.Hash)
@@ -553,6 +636,7 @@ func (rn *runner) runHistory(h int) {
 			fail("c13/"+backend+"/commit-failed/"+errClass(err), fmt.Sprintf("Commit of version %d failed: %v", v, err), w)
 			return
 		}
+		order++
 		end := node.Root{Namespace: testNs, Version: v, Type: node.RootTypeState, Hash: hsh}
 		facts := pairFacts{Reopened: reopened, SessionStart: sessionStart, SameHash: hsh.Equal(&prev.Hash), EmptyCommitLog: len(commitLog) == 0}
 		for _, k := range noopOnlyKeys(cur, ops) {
@@ -564,46 +648,191 @@ func (rn *runner) runHistory(h int) {
 				facts.NoopOfLoadedEmbeddedLeaf = append(facts.NoopOfLoadedEmbeddedLeaf, hex.EncodeToString([]byte(k)))
 			}
 		}
-		pairs = append(pairs, pair{prev, end, cur, next, ops, commitLog, facts})
-		roots := []node.Root{end}
-		// Session bookkeeping for the next batch of a kept-open tree.
-		wr := writtenKeys(cur, ops)
-		for k := range sessEmbedded {
-			if wr[k] || !next.embedded(k) {
-				delete(sessEmbedded, k)
+		mainPair := pair{prev, end, cur, next, ops, commitLog, facts, order}
+		stateCands = append(stateCands, mainPair)
+		if !extrasFirst && !commitExtras(node.RootTypeState, prev, cur, nExtra, &stateCands, backend == "badger") {
+			return
+		}
+
+		// IO roots from the empty root in about half of the versions (one to three candidates).
+		var ioCands []pair
+		ioVersion := rng.IntN(2) == 0
+		ioStart := node.Root{Namespace: testNs, Version: v, Type: node.RootTypeIO}
+		ioStart.Hash.Empty()
+		if ioVersion {
+			order = 0
+			nIO := 1
+			if candRng.IntN(2) == 0 {
+				nIO += 1 + candRng.IntN(2)
+			}
+			if !commitExtras(node.RootTypeIO, ioStart, model{}, nIO, &ioCands, backend == "badger" && nIO > 1) {
+				return
 			}
 		}
 
-		// IO root from the empty root in about half of the versions.
-		if rng.IntN(2) == 0 {
-			ioOps := genBatch(rng, model{}, maxOps)
-			ioAfter := applyOps(model{}, ioOps)
-			ioTree := mkvs.New(nil, leader, node.RootTypeIO)
-			cursor = base
-			cursor.RootType, cursor.Version, cursor.Ops = "io-root", v, ioOps
-			if err := applyToTree(ctx, ioTree, ioOps); err != nil {
-				ioTree.Close()
-				fail("c13/"+backend+"/harness/tree-op-failed", err.Error(), base)
-				return
+		// Candidates with a hash that another candidate of the version (or, for IO, the empty root)
+		// already has are not distinguishable in the database; they are dropped from the checks.
+		dedup := func(cands []pair, dropEmpty bool) []pair {
+			seen := map[string]bool{}
+			var out []pair
+			for _, c := range cands {
+				key := c.end.Hash.String()
+				if seen[key] || (dropEmpty && c.end.Hash.IsEmpty()) {
+					st.add("candidates_dropped_duplicate_or_empty", 1)
+					continue
+				}
+				seen[key] = true
+				out = append(out, c)
 			}
-			ioLog, ioHash, err := ioTree.Commit(ctx, testNs, v)
-			ioTree.Close()
+			return out
+		}
+		mainDup := false
+		var dropped []pair
+		{
+			// The main candidate must survive de-duplication (its tree session goes on).
+			var first []pair
+			for _, c := range stateCands {
+				if c.end.Hash.Equal(&mainPair.end.Hash) && c.order != mainPair.order {
+					mainDup = true
+					dropped = append(dropped, c)
+					st.add("candidates_dropped_duplicate_or_empty", 1)
+					continue
+				}
+				first = append(first, c)
+			}
+			stateCands = dedup(first, false)
+		}
+		mainCommittedExistingRoot := false
+		if mainDup {
+			for _, c := range dropped {
+				if c.order < mainPair.order {
+					mainCommittedExistingRoot = true
+				}
+			}
+		}
+		ioCands = dedup(ioCands, true)
+
+		// Before Finalize: every candidate's write log is either refused or leads exactly to it.
+		candRoots := func(cands []pair) []string {
+			var out []string
+			for _, c := range cands {
+				out = append(out, fmt.Sprintf("#%d %s", c.order, c.end.Hash))
+			}
+			return out
+		}
+		checkCandidate := func(p pair, phase string, all []pair) {
+			w := base
+			w.RootType, w.Version, w.Phase, w.CommitOrder, w.Competitors = p.start.Type.String(), p.end.Version, phase, p.order, candRoots(all)
+			w.StartRoot, w.EndRoot = fmt.Sprintf("%d:%s", p.start.Version, p.start.Hash), fmt.Sprintf("%d:%s", p.end.Version, p.end.Hash)
+			w.Facts, w.Before, w.Ops, w.CommitLog = p.facts, p.before.sorted(), p.ops, p.commitLog
+			cursor = w
+			where = phase + "/getwritelog/" + backend
+			r.Eval(1)
+			var served writelog.WriteLog
+			it, err := leader.GetWriteLog(ctx, p.start, p.end)
+			if err == nil {
+				served, err = drain(it)
+			}
 			if err != nil {
-				w := base
-				w.Version, w.Ops, w.RootType = v, ioOps, "io"
-				fail("c13/"+backend+"/commit-failed/io/"+errClass(err), fmt.Sprintf("Commit of IO root at version %d failed: %v", v, err), w)
+				// Refusing the log of a root that is not (or will never be) finalized is fine.
+				st.add(phase+"/getwritelog/"+backend+"/"+errClass(err), 1)
 				return
 			}
-			ioStart := node.Root{Namespace: testNs, Version: v, Type: node.RootTypeIO}
-			ioStart.Hash.Empty()
-			ioEnd := node.Root{Namespace: testNs, Version: v, Type: node.RootTypeIO, Hash: ioHash}
-			if ioHash.IsEmpty() {
-				// The IO tree ended empty: there is no IO root to sync in this version.
-				st.add("io_batches_ending_empty_skipped", 1)
-			} else {
-				pairs = append(pairs, pair{ioStart, ioEnd, model{}, ioAfter, ioOps, ioLog, pairFacts{EmptyCommitLog: len(ioLog) == 0}})
+			st.add(phase+"/getwritelog/"+backend+"/served", 1)
+			w.ServedLog = served
+			if got := applyLog(p.before, served); !got.equal(p.after) {
+				fail("c13/"+backend+"/"+phase+"/writelog-wrong-contents", fmt.Sprintf("write log served for candidate #%d of %d (%s): applied to the contents of the parent root it does not give the contents of that candidate (%d vs %d keys)", p.order, len(all), phase, len(got), len(p.after)), w)
 			}
-			roots = append(roots, ioEnd)
+			where = phase + "/apply-served-log-to-tree/" + backend
+			res := applyOnTree(ctx, leader, p.start, p.end, served, false)
+			if !res.ok(p.end) {
+				res2 := applyOnTree(ctx, leader, p.start, p.end, served, true)
+				sig := "c13/" + backend + "/" + phase + "/writelog-wrong-root"
+				switch {
+				case res2.ok(p.end):
+					sig = sigCacheFamily + "served-log-on-tree-at-r/" + res.symptom()
+				case res.pan != nil:
+					sig = "panic/" + phase + "/apply-served-log-to-tree/" + backend
+				case res.err != nil:
+					sig = "c13/" + backend + "/" + phase + "/writelog-apply-error/" + errClass(res.err)
+				}
+				fail(sig, fmt.Sprintf("write log served for candidate #%d of %d (%s) applied to a tree at the parent root: %s; the candidate root is %s", p.order, len(all), phase, res, p.end.Hash), w)
+			}
+		}
+		if len(stateCands) > 1 {
+			st.add("versions_with_competing_state_candidates/"+backend, 1)
+		}
+		if len(ioCands) > 1 {
+			st.add("versions_with_competing_io_candidates/"+backend, 1)
+		}
+		for _, cands := range [][]pair{stateCands, ioCands} {
+			if len(cands) < 2 {
+				continue
+			}
+			for _, c := range cands {
+				checkCandidate(c, "pending-candidate", cands)
+			}
+		}
+
+		// Finalize a PRNG-chosen candidate per type (the main state candidate in half of the cases,
+		// so that kept-open tree sessions stay frequent).
+		chosen := mainPair
+		if len(stateCands) > 1 && candRng.IntN(2) == 0 && backend != "badger" {
+			// (On badger the main candidate, whose batch is unrestricted, is never the discarded one.)
+			chosen = stateCands[candRng.IntN(len(stateCands))]
+		}
+		if chosen.order != mainPair.order || mainCommittedExistingRoot {
+			// The kept-open tree sits on a discarded root now: the next batch reopens at the chosen one.
+			// The tree is also dropped when its Commit hit a root that an earlier candidate of this
+			// version had committed already: pathbadger skips such a commit but the tree keeps the
+			// database pointers of nodes that were never written, so its NEXT commit would persist
+			// dangling references (reported to the lead as a C06-type finding, not part of C13).
+			tree.Close()
+			tree = nil
+			if chosen.order != mainPair.order {
+				st.add("finalized_candidate_is_not_the_main_one/"+backend, 1)
+			} else {
+				st.add("tree_dropped_after_commit_of_already_existing_root/"+backend, 1)
+			}
+		} else {
+			// Session bookkeeping for the next batch of a kept-open tree.
+			wr := writtenKeys(cur, ops)
+			for k := range sessEmbedded {
+				if wr[k] || !next.embedded(k) {
+					delete(sessEmbedded, k)
+				}
+			}
+		}
+		next, end = chosen.after, chosen.end
+		pairs = append(pairs, chosen)
+		roots := []node.Root{end}
+		var discarded [][]pair
+		{
+			var d []pair
+			for _, c := range stateCands {
+				if c.order != chosen.order {
+					d = append(d, c)
+				}
+			}
+			discarded = append(discarded, d)
+		}
+		if ioVersion {
+			if len(ioCands) == 0 {
+				// Every IO tree ended empty: there is no IO root to sync in this version.
+				st.add("io_batches_ending_empty_skipped", 1)
+				roots = append(roots, ioStart)
+			} else {
+				ioChosen := ioCands[candRng.IntN(len(ioCands))]
+				pairs = append(pairs, ioChosen)
+				roots = append(roots, ioChosen.end)
+				var d []pair
+				for _, c := range ioCands {
+					if c.order != ioChosen.order {
+						d = append(d, c)
+					}
+				}
+				discarded = append(discarded, d)
+			}
 		}
 
 		where = "finalize/" + backend
@@ -623,6 +852,14 @@ func (rn *runner) runHistory(h int) {
 				w.RootType, w.Version, w.Ops, w.Before, w.CommitLog, w.Facts = p.start.Type.String(), p.end.Version, p.ops, p.before.sorted(), p.commitLog, p.facts
 				fail("c13/"+backend+"/leader-root-differs-from-reference-map", fmt.Sprintf("the committed root reads %d keys (err %v), the reference map has %d", len(got), err, len(p.after)), w)
 				return
+			}
+		}
+
+		// After Finalize: a discarded candidate's write log is refused, or still leads exactly to it.
+		for _, ds := range discarded {
+			for _, c := range ds {
+				all := append([]pair{}, ds...)
+				checkCandidate(c, "discarded-candidate", all)
 			}
 		}
 
@@ -663,9 +900,10 @@ func (rn *runner) runHistory(h int) {
 			case err != nil && p.end.Hash.IsEmpty():
 				// r' is the empty root, which is implicitly present everywhere and never synced.
 				st.add("observed/getwritelog_to_empty_root/"+backend+"/"+errClass(err), 1)
-			case err != nil && p.facts.SameHash && p.facts.EmptyCommitLog && errors.Is(err, dbApi.ErrWriteLogNotFound):
-				// Both backends do not store an empty write log; the storage worker never asks
-				// for the diff of two roots with the same hash (worker.go fetchDiff).
+			case err != nil && p.facts.SameHash && errors.Is(err, dbApi.ErrWriteLogNotFound):
+				// Both backends do not store an empty write log (and keep the first log when the
+				// same root is committed twice); the storage worker never asks for the diff of two
+				// roots with the same hash (worker.go fetchDiff).
 				st.add("observed/empty_transition_log_not_stored/"+backend, 1)
 			case err != nil:
 				sig := classifyGetWriteLogFailure(backend, err, p.facts)
